@@ -1,5 +1,17 @@
 """C05 - balancer membership equals the server set after any join/leave history."""
 from props.lbcommon import LBCheck
+from props.fullcommon import FullCheck
+
+
+class _FullStackMembership(FullCheck):
+  """Every 4th case: a complete client stack (real channels) on the simulated network with
+  members joining and leaving under traffic and faults; judged at final quiescence."""
+  ID = 'C05'
+  FOCUS = ('membership:',)
+  REQUIRED_CLASSES = ()
+
+  def bias(self, rng):
+    return {'membership': 0.6, 'scripted': 0.9}
 
 
 class C05(LBCheck):
@@ -11,11 +23,22 @@ class C05(LBCheck):
           'interleaved with traffic and failing channels. At every quiescent point with no notification '
           'pending: heap endpoints U aperture idle endpoints == truth set, disjoint, no duplicates; at the end (heap '
           'balancer, all members healthy) |members| requests are left outstanding and exactly the current members '
-          'must have received one each. '
+          'must have received one each. Every 4th case instead drives a complete real client stack (C01\'s scenarios '
+          'with joins and leaves under traffic and faults) and compares at final quiescence. '
           'non-trivial = a join or leave was delivered; distinct as C03')
   REQUIRED_CLASSES = ('heap', 'aperture', 'join-duplicate', 'leave-unknown', 'rejoin', 'notify-during-loading',
-                      'rejoin-while-draining', 'removal', 'init-retry', 'saturation-probe')
+                      'rejoin-while-draining', 'removal', 'init-retry', 'saturation-probe', 'full-stack')
   ASSUMPTIONS = ('eligible endpoints are read from the balancer\'s heap and idle set (observe_at: internal)',)
+
+  def run_case(self, env, rng, idx, tier):
+    if idx % 4 == 3:
+      if not hasattr(self, '_full'):
+        self._full = _FullStackMembership()
+      res = self._full.run_case(env, rng, idx, tier)
+      res.classes = sorted(set(res.classes) | {'full-stack'})
+      res.sig = ('full-stack', res.sig)
+      return res
+    return LBCheck.run_case(self, env, rng, idx, tier)
 
   def profile(self, rng, tier):
     return {'dispatch': 25, 'complete': 20, 'down': 5, 'up': 4, 'leave': 20, 'join': 20, 'advance': 6}
